@@ -99,6 +99,9 @@ def run(rep: Report) -> None:
     rep.rule("R18.3", "LogarithmicUnit stores its reference unprefixed", floor=1)
     rep.rule("R18.4", "power_ratio is 2 exactly for root-power reference dimensions and 1 otherwise", floor=2)
     rep.rule("R18.5", "declared logarithm bases are > 1 (strictly increasing level)", floor=3)
+    rep.rule("R18.9", "ROOT_POWER_DIMENSIONS has no entry written twice", floor=1)
+    rep.rule("R18.8", "membership of the reference's dimension in ROOT_POWER_DIMENSIONS cannot go stale: interned classes hash by identity or over "
+             "fields nothing assigns after construction (shared with C02 R02.11)", floor=5)
     rep.rule("R18.7", "Logarithm / LogarithmicUnit are interned under a key that determines their defining arguments exactly", floor=6)
     rep.rule("R18.6", "Level.__eq__ compares through quantify() on every arm", floor=2)
 
@@ -205,8 +208,17 @@ def run(rep: Report) -> None:
         rep.fail("R18.4", "power_ratio:arms", f"power_ratio distinguishes {sorted(seen_arms)}; expected both a root-power and a "
                  "power arm decided by membership in ROOT_POWER_DIMENSIONS", pr.where())
 
-    # ---- R18.5 declared bases
     ev = evaluate()
+    # ---- R18.9 the table itself
+    table = ev.ns.get("", {}).get("ROOT_POWER_DIMENSIONS") if hasattr(ev, "ns") else None
+    if not isinstance(table, (list, tuple, set)) or not table:
+        raise AnalysisError("ROOT_POWER_DIMENSIONS is not a literal collection of dimensions the declaration evaluator can read")
+    distinct = {id(d) for d in table}
+    rep.check("R18.9", "ROOT_POWER_DIMENSIONS:distinct", len(distinct) == len(table),
+              f"ROOT_POWER_DIMENSIONS lists {len(table)} dimensions but only {len(distinct)} different ones: an entry is written twice (structurally equal "
+              "dimensions are one object) and the dimension it was meant to be is missing, so k = 1 is used for it", "src/measured/__init__.py")
+
+    # ---- R18.5 declared bases
     for key, lg in ev.logs.items():
         b = lg.base
         name = lg.name or lg.symbol or str(key)
@@ -242,6 +254,8 @@ def run(rep: Report) -> None:
                   f"(comparisons seen: {[ast.unparse(e.node) for e in cmps]}): both sides must be the denoted quantities, compared with "
                   "Quantity.__eq__ so that x == y exactly when y == x", leq.where())
     interning_keys(rep, prog)
+    from .c02 import stable_hash
+    stable_hash(rep, prog, resolver, "R18.8")
     rep.assume("in_unit is value-preserving (C04); ln/exp are inverse; B > 1")
     rep.not_decided.append("floating-point rounding of the (algebraically verified) formulas; Level.__add__/__sub__ (not part of the property)")
     rep.trust("mypy 2.3.1 expression types; E4 normal forms with ln/exp heads")
